@@ -127,4 +127,24 @@ reg(
     TRUSTED + "Bitwise comparison; optimize may rebind vertex.pose objects.",
 )
 
+reg(
+    "C11",
+    "DESIGN.md section 4 C11",
+    "property-based testing over generated operation programs / histories (Hypothesis): exact rational angle arithmetic (80-digit pi) and quaternion-norm invariants along chains of up to 1e4 operations and optimizer runs",
+    "Generated histories: chains of up to 1e4 pose operations (oplus, ominus, inverse, boxplus, copy, either operand order), SE2 constructor / from_matrix / "
+    "neg_pi_to_pi on angles up to 1e6 and on both sides of +-pi, optimizer runs of 1..50 iterations inside and outside the convergence neighbourhood, normalize() "
+    "on scaled quaternions of either sign. Every produced SE2 angle is in [-pi,pi] and congruent (exact Fraction arithmetic) to the exact result; every SE3 "
+    "quaternion stays unit within 4*eps*(N+2); normalize() yields unit norm, w >= 0 and the same rotation.",
+    TRUSTED + "Python fractions for exact arithmetic; float pi for the closed range bounds.",
+)
+reg(
+    "C16",
+    "DESIGN.md section 4 C16",
+    "property-based testing over a generated family of custom edge programs (Hypothesis): numeric-fallback Jacobians vs forward-mode AD of reference twins with a per-case forward-difference error bound; differential optimization against exact-Jacobian twin graphs",
+    "Generated-input/program search: six custom error functions (distance, range, relative pose, prior, midpoint, equal-step) over all admissible pose-type combinations; "
+    "BaseEdge.calc_jacobians equals the AD derivative of the twin within 4*(h/2)*|second derivative| + rounding; graphs built from numeric edges converge to the same optimum "
+    "(1e-3), chi2 (1e-6), at comparable speed, and to an exactly-stationary point of the reference system, as their exact-Jacobian twins.",
+    TRUSTED + "Operands |t| <= 100, distances >= 0.1, C05 neighbourhood; non-smooth points of the error (SE2 wrap, 180-degree residual) are skipped and counted.",
+)
+
 NOT_YET = {}
